@@ -62,8 +62,10 @@ pub struct SigK {
     /// indices into UNIVERSE
     pub configured: BTreeSet<u8>,
     /// a raised instance is waiting (standard signals coalesce)
-    pub pending: [bool; N_SIG],
-    pub pending_at_wait: [bool; N_SIG],
+    /// per signal: bit 1 = a thread-directed instance is pending, bit 2 = a process-directed one
+    /// (standard signals do not queue, but the two pending sets are separate)
+    pub pending: [u8; N_SIG],
+    pub pending_at_wait: [u8; N_SIG],
     /// the source object still exists (its Drop unblocks the mask)
     pub alive: bool,
 }
@@ -171,7 +173,7 @@ pub fn sig_new(sim: &Sim, id: Id, sigs: &[u8], script: &Script) {
         on_signal(id, ev, tag);
     });
     let configured: BTreeSet<u8> = sigs.iter().copied().filter(|i| (*i as usize) < N_SIG).collect();
-    let mut src = new_src(id, script, K::Sig(SigK { disp: Some(disp.clone()), configured, pending: [false; N_SIG], pending_at_wait: [false; N_SIG], alive: true }), sh, cbd);
+    let mut src = new_src(id, script, K::Sig(SigK { disp: Some(disp.clone()), configured, pending: [0; N_SIG], pending_at_wait: [0; N_SIG], alive: true }), sh, cbd);
     src.kept = true;
     let r = guarded(sim, "register_dispatcher", || h.register_dispatcher(disp).map_err(|e| e.to_string()));
     if let Some(r) = r {
@@ -224,9 +226,11 @@ pub fn sig_change(sim: &Sim, id: Id, how: u8, sigs: &[u8]) {
             };
             // a pending signal that is no longer configured is unblocked: normal disposition
             for i in 0..N_SIG as u8 {
-                if k.pending[i as usize] && !after.contains(&i) {
-                    k.pending[i as usize] = false;
-                    deliver.push(i);
+                if k.pending[i as usize] != 0 && !after.contains(&i) {
+                    for _ in 0..k.pending[i as usize].count_ones() {
+                        deliver.push(i);
+                    }
+                    k.pending[i as usize] = 0;
                 }
             }
             k.configured = after;
@@ -242,7 +246,7 @@ pub fn sig_change(sim: &Sim, id: Id, how: u8, sigs: &[u8]) {
     check(sim, ["add_signals", "remove_signals", "set_signals"][how.min(2) as usize]);
 }
 
-pub fn raise(sim: &Sim, sig: u8) {
+pub fn raise(sim: &Sim, sig: u8, process_directed: bool) {
     if sig as usize >= N_SIG || !sim.st.borrow().sig.used {
         return;
     }
@@ -253,7 +257,7 @@ pub fn raise(sim: &Sim, sig: u8) {
         if let Some(id) = live {
             if let Some(K::Sig(k)) = st.srcs.get_mut(&id).map(|s| &mut s.k) {
                 if k.configured.contains(&sig) {
-                    k.pending[sig as usize] = true;
+                    k.pending[sig as usize] |= if process_directed { 2 } else { 1 };
                     blocked = true;
                 }
             }
@@ -263,7 +267,11 @@ pub fn raise(sim: &Sim, sig: u8) {
         }
     }
     unsafe {
-        libc::raise(UNIVERSE[sig as usize].0);
+        if process_directed {
+            libc::kill(libc::getpid(), UNIVERSE[sig as usize].0);
+        } else {
+            libc::raise(UNIVERSE[sig as usize].0);
+        }
     }
     check(sim, "raise");
 }
@@ -282,8 +290,10 @@ fn on_signal(id: Id, ev: calloop::signals::Event, tag: &mut Tag) {
                 let idx = UNIVERSE.iter().position(|(_, x)| *x == ev.signal());
                 let mut viol = None;
                 match idx {
-                    Some(i) if k.pending[i] && k.configured.contains(&(i as u8)) => {
-                        k.pending[i] = false;
+                    Some(i) if k.pending[i] != 0 && k.configured.contains(&(i as u8)) => {
+                        // one instance consumed (which of the two the kernel hands out first is
+                        // its business)
+                        k.pending[i] &= k.pending[i] - 1;
                         let (pid, uid) = unsafe { (libc::getpid() as u32, libc::getuid()) };
                         if ev.pid() != pid || ev.uid() != uid {
                             viol = Some(("signal.wrong_info", format!("signal {:?} reported sender pid {} uid {}, expected {} {}", ev.signal(), ev.pid(), ev.uid(), pid, uid)));
@@ -317,7 +327,7 @@ pub fn after_dispatch(sim: &Sim, ok: bool) {
             continue;
         }
         for i in 0..N_SIG {
-            if k.pending_at_wait[i] && k.pending[i] && k.configured.contains(&(i as u8)) {
+            if k.pending_at_wait[i] & k.pending[i] != 0 && k.configured.contains(&(i as u8)) {
                 let d = format!("{:?} was pending for signals source {} when the dispatch polled, the source was processed, but the signal was not handed to the callback", UNIVERSE[i].1, id);
                 drop(st);
                 sim.violate("signal.left_pending", vec![], d);
@@ -334,10 +344,10 @@ pub fn source_dropped(st: &mut St, id: Id) {
         if k.alive {
             k.alive = false;
             for i in 0..N_SIG {
-                if k.pending[i] {
-                    k.pending[i] = false;
+                for _ in 0..k.pending[i].count_ones() {
                     deliver.push(i);
                 }
+                k.pending[i] = 0;
             }
             k.configured.clear();
         }
